@@ -73,6 +73,11 @@ void Lexer::Start(StringPiece filename, StringPiece input) {
   input_ = input;
   ofs_ = input_.str_;
   last_token_ = NULL;
+  // A lexer object is reused for every file a manifest includes: what one file
+  // declared with ninja_required_version must not count for the next.
+  manifest_version_major = 0;
+  manifest_version_minor = 0;
+  newline_version_checked_ = false;
 }
 
 const char* Lexer::TokenName(Token t) {
